@@ -1320,15 +1320,60 @@ def run_threads(meta, variant, tagged_lines):
     if out and out[-1] == '': out.pop()
     return out, r.returncode, r.stderr
 
+def _minic_footprints(ctx, per):
+    """C19 on the regenerated source: interleaved per-object histories through the MiniC interpreter; every operation may touch only
+    its own object among the persistent ones (the trace is complete by TJ.Props.C19.footprint and the same for all contents by
+    footprint_same_for_all_contents), and its result must equal the implementation's"""
+    import taint
+    ok, stats = taint.regenerate(ctx, ('tjminic', 'TJ.Props.C19'))
+    ctx.extra_cov['minic'] = {k: stats.get(k) for k in ('functions', 'translated', 'globals', 'errors', 'build_ok')}
+    if stats.get('errors'): ctx.broken_proofs.append('tools/c2lean.py cannot translate the current sources: ' + '; '.join(stats['errors'][:3]))
+    elif not ok: ctx.broken_proofs.append('regenerated MiniC program / TJ.Props.C19 no longer builds: ' + stats.get('build_log_tail', '')[-400:])
+    for gl in (stats.get('globals') or [])[:3]:
+        ctx.fail('global-state(source)', ['c2lean: file-scope variable %s' % gl], gl, 'no file-scope variables', 'the library source defines a variable with static storage duration (%s): state shared by all calls' % gl, variant='minic')
+    if not ok or not os.path.exists(taint.MINIC): return
+    g = ctx.g; order = []; pos = [0] * len(per)
+    KIND = {'h': 0, 'm': 1, 'k': 2, 'p': 3}
+    def supported(l):
+        return not l.startswith(('sys.', 'p.init ', 'trng'))
+    per = [[l for l in ls if supported(l)] for ls in per]
+    while any(pos[t] < len(per[t]) for t in range(len(per))):
+        t = g.choice([t for t in range(len(per)) if pos[t] < len(per[t])]); order.append(per[t][pos[t]]); pos[t] += 1
+    mo = taint.run_minic(order, trace=True, stateless=False)
+    io = run_impl(ctx.meta, 'prod', order)
+    st = ctx.streams.setdefault('minic-footprints', {'evaluations': 0, 'nontrivial': set(), 'diffs': 0})
+    st['evaluations'] += len(order); bad = 0; nd = 0
+    for l, m, c in zip(order, mo, io):
+        f = l.split(); st['nontrivial'].add(hashlib.md5(l.encode()).digest())
+        own = set()
+        if '.' in f[0] and f[0][0] in KIND and f[0][1] == '.' and len(f) > 1 and f[1].isdigit(): own = {KIND[f[0][0]] * 8 + int(f[1])}
+        t = field(m, 'touch')
+        if m.startswith('fault'):
+            ctx.broken_proofs.append('MiniC interpreter of the regenerated source faults on "%s": %s' % (l[:100], m[:120])); break
+        touched = set() if t in (None, '-') else {int(x) for x in t.split(',')}
+        if not touched <= own:
+            bad += 1
+            if bad <= 2:
+                ctx.fail('touches-unrelated-object(source)', [l], 'touched persistent blocks %s' % sorted(touched), 'only %s' % sorted(own),
+                         'executing the regenerated source, this operation reads or writes a state object other than the one it was given '
+                         '(blocks are numbered kind*8+index, kinds h,m,k,p); by TJ.Props.C19.footprint_same_for_all_contents this holds for every content', variant='minic')
+        ms = re.sub(r' (leak|touch)=\S+', '', m)
+        if not taint.agrees(ms, c):
+            nd += 1; st['diffs'] += 1
+            if nd <= 1: ctx.broken_proofs.append('MiniC(regenerated source) and the compiled implementation disagree on "%s": minic=%s impl=%s' % (l[:100], ms[:100], c[:100]))
+    ctx.extra_cov['minic_footprints'] = {'ops': len(order), 'foreign_object_touched': bad, 'disagreements_with_impl': nd}
+    ctx.variants_used.add('minic')
+
 def check_C19(ctx):
-    ctx.lean()
     variants = ['prod', 'san'] + (['tsan'] if ctx.tier == 'thorough' else ['tsan'])
     ctx.build(variants)
+    ctx.lean()
     _symbol_audit(ctx)
     g = ctx.g
     # (1) order of unrelated calls: interleaving of per-object histories vs running each alone
     nthreads = 8
     per = [_thread_workload(g, t, 25 if ctx.tier == 'quick' else 120) for t in range(nthreads)]
+    _minic_footprints(ctx, per)
     alone = [run_impl(ctx.meta, 'prod', ls) for ls in per]
     rounds = 3 if ctx.tier == 'quick' else 12
     for rd in range(rounds):
